@@ -36,6 +36,10 @@ type c12Case struct {
 	HexUpper bool    `json:"hexUpper,omitempty"` // chunk sizes in upper-case hexadecimal digits
 	ViaPart  bool    `json:"viaPart,omitempty"`  // the stream is part 1 of a multipart upload, which is then completed
 	MD5      bool    `json:"md5,omitempty"`      // the request carries the Content-MD5 of the payload the stream decodes to
+	// BigMeta > 0: the upload carries that many bytes of user metadata, around the server's limit for
+	// stored headers: the upload may be refused for it (MetadataTooLarge, nothing stored); if it is
+	// accepted, what is stored is the payload
+	BigMeta int `json:"bigMeta,omitempty"`
 }
 
 var c12Prior = []byte("object stored before the streaming upload")
@@ -141,7 +145,7 @@ func c12Check(cs c12Case) (ds []disc) {
 	}
 	payload := cs.Payload.bytes()
 	fail := func(kind, f string, a ...interface{}) {
-		ds = append(ds, disc{Kind: kind, Detail: fmt.Sprintf("backend=%s/%d payload=%d chunks=%v frag=%+v mut=%s/%d declared=%v prior=%v: ", cs.Backend, cs.StreamBuf, len(payload), trunc([]byte(fmt.Sprint(cs.Chunks)), 60), cs.Frag, cs.Mut, cs.MutK, strOrNil(cs.Declared), cs.Prior) + fmt.Sprintf("viaPart=%v md5=%v: ", cs.ViaPart, cs.MD5) + fmt.Sprintf(f, a...)})
+		ds = append(ds, disc{Kind: kind, Detail: fmt.Sprintf("backend=%s/%d payload=%d chunks=%v frag=%+v mut=%s/%d declared=%v prior=%v: ", cs.Backend, cs.StreamBuf, len(payload), trunc([]byte(fmt.Sprint(cs.Chunks)), 60), cs.Frag, cs.Mut, cs.MutK, strOrNil(cs.Declared), cs.Prior) + fmt.Sprintf("viaPart=%v md5=%v bigMeta=%d: ", cs.ViaPart, cs.MD5, cs.BigMeta) + fmt.Sprintf(f, a...)})
 	}
 	key := "streamed/object"
 	if cs.Prior {
@@ -167,6 +171,9 @@ func c12Check(cs c12Case) (ds []disc) {
 	mismatch := strings.Trim(declared, " \t") != fmt.Sprint(len(payload))
 	rq := &s3x.Req{Method: "PUT", Path: "/bk0/" + key, Body: stream, Frag: cs.Frag,
 		Header: s3x.H("X-Amz-Content-Sha256", "STREAMING-AWS4-HMAC-SHA256-PAYLOAD", "X-Amz-Decoded-Content-Length", declared, "Content-Encoding", "aws-chunked", "X-Amz-Meta-Streamed", "s")}
+	if cs.BigMeta > 0 {
+		rq.Header = append(rq.Header, [2]string{"X-Amz-Meta-Pad", strings.Repeat("m", cs.BigMeta)})
+	}
 	if cs.MD5 {
 		// the digest of the decoded payload, as the SDKs send it: it must not make a well-formed
 		// stream fail
@@ -243,6 +250,12 @@ func c12Check(cs c12Case) (ds []disc) {
 	wellFormed := verdict == oracle.ChunkWellFormed && !mismatch
 	switch {
 	case wellFormed:
+		if cs.BigMeta > 0 && r.Status == 400 && r.ErrCode() == "MetadataTooLarge" {
+			if !cs.ViaPart && !prevOK() {
+				fail("rejected-stream-changed-state", "answered %s but the key now reads %d with %d bytes (md5 %s)", r, g.Status, len(g.Body), md5hex(g.Body))
+			}
+			return
+		}
 		if r.Status != 200 {
 			fail("valid-stream-refused", "a well-formed stream was answered %s", r)
 			return
@@ -313,7 +326,7 @@ func TestC12(t *testing.T) {
 		Level: "exploration",
 		Rule: "cases = (backend incl. a streaming consumer with buffer sizes 1 B..64 KiB, payload, chunk-size sequence, read fragmentation of the request body, stream mutation, declared decoded length, prior object?); " +
 			"payload sizes {0,1,100,32767..32769,65536,100000,(1-3 MiB thorough)}, chunk sizes from 1 byte to larger than the 32 KiB copy buffer and the 64 KiB SDK default, fragmentations whole / one byte / halves / fixed n / drawn split points / data returned together with EOF; " +
-			"well-formed => 200 and GET == payload for every fragmentation and backend; mutated or length-mismatched => rejected with the previous state intact, or (where still a valid stream) stored exactly; " +
+			"well-formed => 200 and GET == payload for every fragmentation and backend (with user metadata around the stored-header limit: that, or refused as too large with nothing stored); mutated or length-mismatched => rejected with the previous state intact, or (where still a valid stream) stored exactly; " +
 			"non-trivial = >= 2 chunks, or a chunk larger than 32 KiB, or a fragmentation other than whole, or a mutation; distinct by the full case",
 		Replay: c12Replay,
 		Run:    c12Run,
@@ -374,6 +387,9 @@ func c12Run(t *testing.T, c *evid.Collector) {
 		if cs.MD5 {
 			labels = append(labels, "content-md5")
 		}
+		if cs.BigMeta > 0 {
+			labels = append(labels, "metadata-around-the-limit")
+		}
 		c.Case(evid.FP(mustJSON(cs)), nt, func() interface{} { return cs }, labels...)
 		return report(c, "stream", ds, cs)
 	}
@@ -420,6 +436,17 @@ func c12Run(t *testing.T, c *evid.Collector) {
 						record(cs, c12Check(cs), "grid-part")
 					}
 				}
+			}
+		}
+		// user metadata around the server's limit for stored headers, next to the streaming headers
+		for _, bm := range []int{1500, 1800, 1850, 1900, 1950, 2000, 2100, 4000} {
+			for _, m := range []string{"", "no-final-chunk"} {
+				i++
+				if i%evid.Shards() != evid.Shard() {
+					continue
+				}
+				cs := c12Case{Backend: cfg.K, StreamBuf: cfg.Buf, Payload: bodySpec{N: 65536, Seed: 13}, Chunks: []int{10000}, Frag: s3x.Frag{Mode: "whole"}, Mut: m, Prior: i%2 == 0, BigMeta: bm}
+				record(cs, c12Check(cs), "grid-big-metadata")
 			}
 		}
 		// chunk sizes whose hexadecimal form has letters, written in either case
@@ -518,6 +545,9 @@ func c12Run(t *testing.T, c *evid.Collector) {
 			cs.Declared = &d
 		}
 		cs.ViaPart = rapid.IntRange(0, 4).Draw(rt, "viapart") == 0
+		if rapid.IntRange(0, 7).Draw(rt, "bigmeta") == 0 {
+			cs.BigMeta = rapid.IntRange(1500, 2200).Draw(rt, "bm")
+		}
 		cs.MD5 = rapid.IntRange(0, 2).Draw(rt, "md5") == 0
 		if record(cs, c12Check(cs), "random") {
 			rt.Fatalf("C12 violated")
